@@ -2,7 +2,7 @@
 EXTENDS NamespacesContract, IOUtils
 VARIABLES tid, l, bad
 Traces == ndJsonDeserialize(IOEnv.TRACE_FILE)
-StepClause(pre, ev) == NsParseFailing(ev.a, ev.post)
+StepClause(pre, ev) == IF ev.a.kind = "nsdupes" THEN NsDupesFailing(ev.a, ev.post) ELSE NsParseFailing(ev.a, ev.post)
 StateClause(o) == "ok"
 INSTANCE Monitor
 =============================================================================
